@@ -63,7 +63,8 @@ def strip_added(ans):
 
 
 def judge(line, m, i):
-    return None if core.norm(m) == core.norm(i) else "model of the specification and implementation disagree"
+    # C16's observation is equality ACROSS builds (cross_features below)
+    return None
 
 
 def cross_features(all_results):
